@@ -72,26 +72,31 @@ def standardStore : NodeStore where
 /-! ## the semantic store -/
 
 /-- `SemanticDecisionNNFBuilder::get_or_insert`.  The state lists the stored nodes with the
-hash they are keyed by, oldest first.  `semHash` is the semantic hash of a node (a field
-element, supplied from outside, applied to the *regular* pointer to the requested node),
-`negH` is `FiniteField::negate` (`h ↦ P - h + 1`).  Lookup by hash → the stored node, regular;
-lookup by negated hash → the stored node, complemented; otherwise the requested node is
-stored as it is (no complement normalisation) and returned regular. -/
-def getOrInsertSemantic (semHash : Ptr → Nat) (negH : Nat → Nat)
-    (st : List (Nat × Ptr)) (v : Nat) (lo hi : Ptr) : Ptr × List (Nat × Ptr) :=
+table key they are stored under, oldest first.  `semHash` is the semantic hash of a node (a
+field element, supplied from outside, applied to the *regular* pointer to the requested
+node), `negH` is `FiniteField::negate` (`h ↦ P - h + 1`), `key` is the 64-bit `FxHasher`
+digest of a field value, which is what the table (`get_by_hash`, `get_or_insert_by_hash` with
+equality-by-hash) compares.  Lookup by `key h` → the stored node, regular; lookup by
+`key (negH h)` → the stored node, complemented; otherwise the requested node is stored as it
+is (no complement normalisation) under `key h` and returned regular.  (`H` is the type of
+field values, `Nat` for the Rust; it is a parameter only so that an idealised collision-free
+hash can be exhibited.) -/
+def getOrInsertSemantic {H : Type} [DecidableEq H] (semHash : Ptr → H) (negH key : H → H)
+    (st : List (H × Ptr)) (v : Nat) (lo hi : Ptr) : Ptr × List (H × Ptr) :=
   let n := Ptr.node false v lo hi
   let h := semHash n
-  match st.find? (fun e => e.1 == h) with
+  match st.find? (fun e => e.1 == key h) with
   | some e => (e.2, st)
   | none =>
-    match st.find? (fun e => e.1 == negH h) with
+    match st.find? (fun e => e.1 == key (negH h)) with
     | some e => (e.2.neg, st)
-    | none => (n, st ++ [(h, n)])
+    | none => (n, st ++ [(key h, n)])
 
-def semanticStore (semHash : Ptr → Nat) (negH : Nat → Nat) : NodeStore where
-  τ := List (Nat × Ptr)
+def semanticStore {H : Type} [DecidableEq H] (semHash : Ptr → H) (negH : H → H) (key : H → H := id) :
+    NodeStore where
+  τ := List (H × Ptr)
   empty := []
-  getOrInsert := getOrInsertSemantic semHash negH
+  getOrInsert := getOrInsertSemantic semHash negH key
 
 /-! ## `conjoin_implied` -/
 
